@@ -3,7 +3,10 @@ package props
 import (
 	"encoding/json"
 	"fmt"
+	"math/rand/v2"
 	"net/url"
+	"reflect"
+	"sort"
 
 	"github.com/google/jsonschema-go/jsonschema"
 
@@ -18,10 +21,18 @@ func compileDoc(c *fw.Case, text string, opts *jsonschema.ResolveOptions) (rs *j
 	if c.R.IntN(8) == 0 && json.Valid([]byte(text)) {
 		text = gen.Relayout(c.R, text) // insignificant whitespace is free (RFC 8259)
 	}
-	ok = c.CallChecked("Unmarshal+Resolve", map[string]any{"schema": json.RawMessage(text)}, func() {
+	goOnly := c.R.IntN(6) == 0
+	editedInGo := c.R.IntN(8) == 0
+	ok = c.CallChecked("Unmarshal+Resolve", map[string]any{"schema": json.RawMessage(text), "go_only_fields_set": goOnly, "nodes_decoded_from_a_decoy_then_overwritten_in_go": editedInGo}, func() {
 		if err = json.Unmarshal([]byte(text), &s); err != nil {
 			err = fmt.Errorf("unmarshal: %w", err)
 			return
+		}
+		if goOnly {
+			setGoOnlyFields(c.R, &s)
+		}
+		if editedInGo {
+			decodeDecoyThenRestore(c.R, &s)
 		}
 		rs, err = s.Resolve(opts)
 		if err != nil {
@@ -61,4 +72,120 @@ func (l *mapLoader) load(u *url.URL) (*jsonschema.Schema, error) {
 		return nil, err
 	}
 	return &s, nil
+}
+
+// forEachSchema visits s and every Schema reachable from it through schema-valued fields (own reflection walk).
+func forEachSchema(s *jsonschema.Schema, f func(*jsonschema.Schema)) {
+	seen := map[*jsonschema.Schema]bool{}
+	schemaT := reflect.TypeFor[*jsonschema.Schema]()
+	var walk func(s *jsonschema.Schema)
+	walk = func(s *jsonschema.Schema) {
+		if s == nil || seen[s] {
+			return
+		}
+		seen[s] = true
+		f(s)
+		v := reflect.ValueOf(s).Elem()
+		for i := 0; i < v.NumField(); i++ {
+			fv := v.Field(i)
+			if !v.Type().Field(i).IsExported() {
+				continue
+			}
+			switch {
+			case fv.Type() == schemaT:
+				walk(fv.Interface().(*jsonschema.Schema))
+			case fv.Kind() == reflect.Slice && fv.Type().Elem() == schemaT:
+				for j := 0; j < fv.Len(); j++ {
+					walk(fv.Index(j).Interface().(*jsonschema.Schema))
+				}
+			case fv.Kind() == reflect.Map && fv.Type().Elem() == schemaT:
+				keys := fv.MapKeys()
+				sort.Slice(keys, func(a, b int) bool { return keys[a].String() < keys[b].String() })
+				for _, k := range keys {
+					walk(fv.MapIndex(k).Interface().(*jsonschema.Schema))
+				}
+			}
+		}
+	}
+	walk(s)
+}
+
+// setGoOnlyFields fills the fields of a decoded Schema tree that no JSON document can set (PropertyOrder is `json:"-"`;
+// For/ForType set it, and so may any program that builds or edits schemas in Go). They describe how to MARSHAL the schema
+// and must not influence Resolve, Validate or ApplyDefaults.
+func setGoOnlyFields(r *rand.Rand, root *jsonschema.Schema) {
+	forEachSchema(root, func(s *jsonschema.Schema) {
+		if len(s.Properties) == 0 || r.IntN(3) == 0 {
+			return
+		}
+		names := sortedKeys(s.Properties)
+		var order []string
+		switch r.IntN(4) {
+		case 0: // every property, in field order as For would list them
+			for _, i := range r.Perm(len(names)) {
+				order = append(order, names[i])
+			}
+		case 1: // the required ones first
+			order = append(order, s.Required...)
+		case 2: // a subset
+			for _, n := range names {
+				if r.IntN(2) == 0 {
+					order = append(order, n)
+				}
+			}
+		default: // with names that are not properties
+			for _, n := range names {
+				order = append(order, n, "absent-"+n)
+			}
+		}
+		seen := map[string]bool{}
+		var dedup []string
+		for _, n := range order {
+			if !seen[n] {
+				seen[n] = true
+				dedup = append(dedup, n)
+			}
+		}
+		s.PropertyOrder = dedup
+	})
+}
+
+// decoyDocs are rich documents whose decoding would leave plenty behind if a Schema remembered anything beside its
+// exported fields (compiled patterns, keyword fast paths, sets derived from enum / required ...).
+var decoyDocs = []string{
+	`{"enum":["red","green"],"const":"red","pattern":"^r","required":["zz"],"type":"string","minLength":2,"maxLength":3,"properties":{"p":false},"patternProperties":{"^x":false},"items":false,"dependentRequired":{"a":["b"]},"format":"email","multipleOf":3,"uniqueItems":true,"additionalProperties":false,"minimum":5,"x-unknown":1}`,
+	`{"type":["integer","null"],"enum":[1,2,3],"allOf":[false],"not":true,"if":true,"then":false,"contains":false,"minContains":2,"prefixItems":[false],"unevaluatedItems":false,"unevaluatedProperties":false,"propertyNames":false,"dependentSchemas":{"a":false},"default":{"a":1},"title":"decoy"}`,
+	`{"$schema":"http://json-schema.org/draft-07/schema#","items":[false,false],"additionalItems":false,"dependencies":{"a":["b"],"c":false},"definitions":{"d":false},"enum":["only"],"maxProperties":0,"maxItems":0}`,
+}
+
+// decodeDecoyThenRestore models a program that decodes a schema and then edits it in Go before Resolve: for one to three
+// nodes of the tree, a DECOY document is decoded into the node (json.Unmarshal merges into the existing value, as for any
+// struct) and then every exported field is set back to the value it had. The exported fields - the only ones a program can
+// see - are exactly those of the original document, so Resolve and Validate must behave as for the original document;
+// anything Unmarshal remembered outside the exported fields is now stale.
+func decodeDecoyThenRestore(r *rand.Rand, root *jsonschema.Schema) {
+	var nodes []*jsonschema.Schema
+	forEachSchema(root, func(s *jsonschema.Schema) { nodes = append(nodes, s) })
+	for k := 1 + r.IntN(3); k > 0; k-- {
+		n := nodes[0]
+		if r.IntN(3) > 0 {
+			n = nodes[r.IntN(len(nodes))]
+		}
+		saved := *n // (shallow: the children stay the original objects)
+		dst, src := reflect.ValueOf(n).Elem(), reflect.ValueOf(&saved).Elem()
+		for i := 0; i < dst.NumField(); i++ {
+			if dst.Type().Field(i).IsExported() {
+				dst.Field(i).SetZero() // so that the decoder allocates its own maps and slices instead of writing into the original's
+			}
+		}
+		if err := json.Unmarshal([]byte(decoyDocs[r.IntN(len(decoyDocs))]), n); err != nil {
+			*n = saved
+			continue
+		}
+		for i := 0; i < dst.NumField(); i++ {
+			if dst.Type().Field(i).IsExported() {
+				dst.Field(i).Set(src.Field(i))
+			}
+		}
+	}
 }
